@@ -278,7 +278,14 @@ impl AsmParser {
             }
         };
 
-        debug_assert!(self.toks.next().is_none(), "expected end of line");
+        // Surplus operands or a second instruction
+        if let Some(tok) = self.toks.next() {
+            return Err(error::parse_generic_unexpected(
+                self.src,
+                "end of line",
+                tok,
+            ));
+        }
 
         Ok(stmt)
     }
